@@ -45,10 +45,19 @@ class Gen:
 
     def string(self, minlen=1, maxlen=64) -> str:
         pool = STRINGS + (XML_STRESS if self.stress else [])
+        if getattr(self, "spec_lexical", False):
+            # JSON Schema patterns are written for UTF-16 regex engines (surrogate pairs); Python's `re` cannot judge astral
+            # characters against them -> kept out of the schema-validation stream (neutral zone)
+            pool = [x for x in pool if all(ord(ch) < 0x10000 for ch in x)]
         s = self.rng.choice(pool)
         if len(s) < minlen:
             s = "s" * minlen
         return s[:maxlen]
+
+    def paths(self):
+        if getattr(self, "spec_lexical", False):      # RFC 8089 file URIs, as the schemas' PathType pattern demands
+            return ["file:///tmp/x.txt", "file:/aasx/files/a.pdf", "file://localhost/c/d.bin"]
+        return PATHS
 
     def uid(self, prefix="https://example.org/") -> str:
         self.counter += 1
@@ -306,7 +315,7 @@ class Gen:
         if cls_name == "Blob":
             return m.Blob(ids, self.rng.choice(CONTENT_TYPES), self.opt(lambda: self.rng.choice([b"", b"\x00\x01", b"hello"]), 0.8), **kw)
         if cls_name == "File":
-            return m.File(ids, self.rng.choice(CONTENT_TYPES), self.opt(lambda: self.rng.choice(PATHS), 0.8), **kw)
+            return m.File(ids, self.rng.choice(CONTENT_TYPES), self.opt(lambda: self.rng.choice(self.paths()), 0.8), **kw)
         if cls_name == "ReferenceElement":
             return m.ReferenceElement(ids, self.opt(self.reference, 0.7), **kw)
         if cls_name == "Capability":
@@ -362,7 +371,7 @@ class Gen:
         gid = self.opt(lambda: self.uid("urn:asset:"), 0.6)
         sids = [self.specific_asset_id() for _ in range(self.rng.randint(0 if gid else 1, 2))]
         return m.AssetInformation(self.rng.choice(list(m.AssetKind)), gid, sids, self.opt(lambda: self.uid("urn:type:"), 0.3),
-                                  self.opt(lambda: m.Resource(self.rng.choice(PATHS), self.opt(lambda: self.rng.choice(CONTENT_TYPES))), 0.3))
+                                  self.opt(lambda: m.Resource(self.rng.choice(self.paths()), self.opt(lambda: self.rng.choice(CONTENT_TYPES))), 0.3))
 
     def shell(self, submodels=()):
         m = self.m
